@@ -22,7 +22,7 @@ def site_function(spans, loc):
     best = None
     for k, v in spans.items():
         if k.startswith("site::") and v["file"] == f and v["lines"][0] <= ln <= v["lines"][1]:
-            best = k.rsplit("::", 1)[-1]
+            best = k.rsplit("::", 1)[-1].split("@")[0]
     return best or f
 
 
@@ -49,7 +49,8 @@ def classify(o, windows):
     c = o["cfg"]
     lp = f64_of_hex(c["pump"]["wavelength_nm"])
     ls = f64_of_hex(c["signal"]["wavelength_nm"])
-    w = windows.get(c["crystal"]["kind"])
+    # an expression crystal has no window of its own; the stream's expressions are BBO_1's Sellmeier formula
+    w = windows.get("BBO_1" if c["crystal"]["kind"] == "Expr" else c["crystal"]["kind"])
     lam = [lp, ls]
     if c["idler"] != "auto":
         lam.append(f64_of_hex(c["idler"]["wavelength_nm"]))
@@ -67,6 +68,12 @@ def classify(o, windows):
             "theta_auto": c["crystal"]["theta_deg"] == "auto", "pp": "off" if c["pp"] == "off" else ("auto" if c["pp"]["period_um"] == "auto" else "explicit"),
             "idler": "auto" if c["idler"] == "auto" else "explicit", "ls_le_lp": ls <= lp,
             "length_m": f64_of_hex(c["crystal"]["length_um"]) * 1e-6}
+
+
+def sig_internal(o):
+    """the signal direction is given by its INTERNAL angle (theta_deg), not by theta_external_deg"""
+    sg = o["cfg"]["signal"]
+    return sg["theta_deg"] is not None and sg["theta_external_deg"] is None
 
 
 def oracle(ctx, obs, spans, windows):
@@ -94,17 +101,46 @@ def oracle(ctx, obs, spans, windows):
             ctx.count("outside_window")
             continue
         fn = site_function(spans, r.get("loc", "")) if r["class"] == "panic" else None
-        cause = "signal_le_pump" if k["ls_le_lp"] else ("nan_cost" if fn == "nelder_mead_1d" else "other")
+        # the cause is OBSERVED, not inferred from the panic site: "nan_cost" only when the public call
+        # signal.theta_external(crystal at the placeholder angle) -- the quantity optimum_theta feeds into its cost function --
+        # is itself non-finite on this input; a panic in the same function on any other input is a different defect
+        orc = o["shadow"]["oracles"]
+        ext_nonfinite = "snell_ext" in orc and orc["snell_ext"] is None and not orc.get("index_panics")
+        internal = sig_internal(o)
+        # likewise "crystal_expression_unevaluable": the crystal's own public index function (CrystalType::get_indices at the
+        # signal wavelength) panics for this configuration's crystal
+        index_panics = bool(orc.get("index_panics"))
+        # which of the two searches panicked: the last step of the shadow construction
+        steps = o["shadow"]["steps"]
+        search = {"optimum_theta": "crystal_angle", "optimum_poling_period": "poling_period"}.get(steps[-1]["step"] if steps else "", "none")
+        period_nan = search == "poling_period" and (orc.get("dkz0") is None or bool(orc.get("nm_period_cost_nan")))
+        cause = ("signal_le_pump" if k["ls_le_lp"] else
+                 "crystal_expression_unevaluable" if index_panics and o["cfg"]["crystal"]["kind"] == "Expr" else
+                 "nan_cost" if fn == "nelder_mead_1d" and search == "crystal_angle" and ext_nonfinite else
+                 "nan_cost_period_search" if fn == "nelder_mead_1d" and period_nan else "other")
+        if internal:
+            angle = "internal_beyond_tir" if ext_nonfinite else "internal"
+        else:
+            te = o["cfg"]["signal"]["theta_external_deg"]
+            angle = "external_beyond_90deg" if te is not None and abs(f64_of_hex(te)) >= 90.0 else "external"
         if r["class"] == "panic":
             ctx.violation("S5", f"try_as_spdc panics ({r['loc']}: {r['msg'][:100]}) for a window-valid configuration [{combo}, "
-                          f"signal {k['ls']} nm, pump {k['lp']} nm]; the property requires Ok or Err",
-                          {"kind": "panic", "site": fn, "cause": cause}, detail)
+                          f"signal {k['ls']} nm, pump {k['lp']} nm, signal angle {angle}]; the property requires Ok or Err",
+                          {"kind": "panic", "site": fn, "cause": cause, "theta": "auto" if k["theta_auto"] else "explicit",
+                           "signal_angle": angle, "search": search}, detail)
         if r["class"] == "ok" and r["nonfinite"]:
             zero_period = o["cfg"]["pp"] != "off" and o["cfg"]["pp"]["period_um"] != "auto" and f64_of_hex(o["cfg"]["pp"]["period_um"]) == 0.0
             cause = "zero_period" if zero_period else ("waist_position_infinite" if set(r["nonfinite"]) <= {"zs", "zi"} else "other")
             why = {"zero_period": " (poling period 0)", "waist_position_infinite": " (index_along returns 0 for the z direction, so -L/(2n) is -inf; cf. C02)"}.get(cause, "")
             ctx.violation("S5", f"try_as_spdc returns Ok with non-finite {r['nonfinite']}{why} [{combo}]",
                           {"kind": "nonfinite", "cause": cause}, detail)
+        # every refractive index of a constructed setup is finite and positive (inside the window)
+        if r["class"] == "ok" and isinstance(r.get("indices"), dict):
+            ctx.count("indices_checked")
+            badix = [b for b, v in r["indices"].items() if v is None or v == "panic" or not (f64_of_hex(v) > 0.0)]
+            if badix and not bool(orc.get("index_panics")):
+                ctx.violation("S5", f"try_as_spdc returns Ok but the refractive index of {badix} is not a finite positive number [{combo}]",
+                              {"kind": "nonfinite", "cause": "refractive_index"}, dict(detail, indices=r["indices"]))
         # the four named error rules
         if (k["both"] or k["neither"]) and r["class"] != "err":
             ctx.violation("S5", f"both/neither signal angle given but the outcome is {r['class']}", {"kind": "rule_signal_angles"}, detail)
@@ -131,16 +167,30 @@ def oracle(ctx, obs, spans, windows):
             ctx.count("calls")
             if calls["class"] != "ok":
                 msg = calls.get("msg", "")
-                cause = ("optimum_period_does_not_fit" if "Could not determine poling period" in msg else
-                         "nan_cost" if "NelderMead" in msg else
-                         "derivative_assert" if "Derivative" in msg else "other")
+                # the cause by the class of the error that was unwrapped (text read from the source by the generator) and by the
+                # panic's location, not by message texts
+                cfn = site_function(spans, calls.get("loc", ""))
+                cause = ("optimum_period_does_not_fit" if cc.error_class(msg) == "err:impossible_period" else
+                         "search_failed" if calls.get("loc", "").startswith("src/math/nelder_mead.rs") else
+                         "derivative_assert" if calls.get("loc", "").startswith("src/math/differentiation.rs") else "other")
                 ctx.violation("S5", f"spectrum/rate/HOM call panics on a successfully constructed setup: {msg[:120]} at {calls.get('loc')}",
                               {"kind": "calls_panic", "site": site_function(spans, calls.get("loc", "")), "cause": cause}, dict(detail, calls=calls))
+            elif calls["inside_window"] and calls.get("normalized_nonfinite") and not calls["nonfinite"]:
+                # the normalised spectrum divides by the optimised setup's JSI at its own centre: x/0 when that is exactly 0
+                cause = "reference_zero" if calls.get("reference_zero") else "other"
+                ctx.violation("S5", "non-finite jsi_normalized_range from a successfully constructed setup on an in-window grid"
+                              + (" (the reference -- the optimised setup's JSI at its centre -- is exactly 0)" if cause != "other" else ""),
+                              {"kind": "calls_nonfinite", "what": "jsi_normalized", "cause": cause}, dict(detail, calls=calls))
             elif calls["inside_window"] and calls["nonfinite"]:
-                cause = "all_zero_jsa" if calls.get("jsa_all_zero") else ("zero_coincidence_counts" if f64_of_hex(calls["cc"]) == 0.0 else "other")
+                # the observed cause: the coincidence rate over the grid is exactly 0 (an identically zero JSA is the extreme case);
+                # or: the JSA itself is NaN for a counter-propagating, non-collinear setup with an explicit poling period
+                cp = o["cfg"]["crystal"]["counter"] is True and "jsa" in calls["nonfinite"] and o["cfg"]["pp"] != "off" \
+                    and o["cfg"]["pp"]["period_um"] != "auto" and f64_of_hex(r["setup"]["signal"]["theta"]) != 0.0
+                cause = "zero_coincidence_counts" if f64_of_hex(calls["cc"]) == 0.0 else ("counter_propagation_explicit_period_noncollinear" if cp else "other")
                 ctx.violation("S5", f"non-finite {calls['nonfinite']} from a successfully constructed setup on an in-window grid"
                               + (" (the coincidence JSA integrates to 0 on the grid: 0/0 in the rate normalisation)" if cause != "other" else ""),
-                              {"kind": "calls_nonfinite", "what": ",".join(calls["nonfinite"]), "cause": cause}, dict(detail, calls=calls))
+                              {"kind": "calls_nonfinite", "what": "jsa" if cause.startswith("counter_propagation") else ",".join(calls["nonfinite"]),
+                               "cause": cause}, dict(detail, calls=calls))
 
 
 def orc_of(o):
@@ -231,6 +281,13 @@ def composed_checks(ctx, obs, label="C17nm", limit=40):
                 root = 2 * 3.141592653589793 / abs(zz)
                 if root <= L * (1 - 1e-9) and abs(abs(p) - root) > 1e-6 * root:
                     problems.append(f"collinear signal: automatic period |p| = {abs(p)!r} is not 2 pi / |dkz| = {root!r}")
+        # the definedness guard of the composed external angle: asin(n sin theta_s) is defined iff |n sin theta_s| <= 1
+        if "snell_ext" in orc and orc.get("snell_arg") is not None and not orc.get("index_panics"):
+            a = abs(f64_of_hex(orc["snell_arg"]))
+            ctx.count("composed_guard_predictions")
+            if abs(a - 1.0) > 1e-9 and (a <= 1.0) != (orc["snell_ext"] is not None):
+                problems.append(f"external angle: |n sin theta_s| = {a!r} but signal.theta_external is "
+                                f"{'defined' if orc['snell_ext'] is not None else 'not finite'} (composed guard: defined iff <= 1)")
         th = st.get("optimum_theta")
         if th and th["class"] == "ok" and th.get("value"):
             t = f64_of_hex(th["value"])
@@ -269,6 +326,13 @@ def correspondence(ctx, obs, spans, units, label="C17"):
             continue
         orc = o["shadow"]["oracles"]
         r = o["real"]
+        if orc.get("index_panics"):
+            # outside the model: its refractive-index oracle is a total function; a crystal whose own public index function
+            # panics (expression with an unbound name) is judged by S5 alone (finding F7g)
+            ctx.count("outside_model:index_function_panics")
+            if r["class"] != "panic":
+                ctx.count("outside_model:unevaluable_crystal_" + r["class"])   # no index needed on this path (everything explicit)
+            continue
         real = "None"
         if r["class"] == "ok":
             real = f"(Some {cc.spdc_term(r['setup'])})"
@@ -332,11 +396,11 @@ def run(ctx):
     # Model/ConfigCheck.vo (the executable side of S4) is an explicit build target: S4 runs whenever Props and Model compile
     proved = (not msgs) and prove(ctx, "C17", extra_targets=["Model/ConfigCheck.vo", "Proofs/C04_cases.vo"])
     # historical records of repaired defects (flags pinned to their old values); no stage depends on them
-    okf, ff, _ = coq_build(ctx, ["Findings/C17_F7.vo"])
+    okf, ff, _ = coq_build(ctx, ["Findings/C17_F7.vo", "Findings/C17_F7b_composed.vo"])
     if not okf:
-        ctx.note("historical record Findings/C17_F7.v does not compile (no check depends on it)")
+        ctx.note("records Findings/C17_F7.v / Findings/C17_F7b_composed.v do not compile (no check depends on them)")
     n = 400 if ctx.tier == "quick" else 4000
-    ncalls = 12 if ctx.tier == "quick" else 80
+    ncalls = 40 if ctx.tier == "quick" else 300
     if getattr(ctx, "replay", None):
         rp = json.load(open(ctx.replay if os.path.isabs(ctx.replay) else os.path.join(VERIF, ctx.replay)))
         obs = run_harness(ctx, binp, ["c17", "replay"], stdin=json.dumps(rp["detail"].get("config", {})))
@@ -354,31 +418,42 @@ def run(ctx):
         nbad += composed_checks(ctx, obs, limit=40 if ctx.tier == "quick" else 400)
     oracle(ctx, obs, spans, windows)
     api_oracle(ctx, obs)
-    if (not proved or nbad) and not any(v["found_input"] for v in ctx.violations):
+    if (not proved or nbad) and not cc.unknown_failing_input(ctx):
         ctx.log("S5 deep search for a failing input (proof obligations / correspondence are broken)")
         for k in range(3):
             obs2 = run_harness(ctx, binp, ["c17", ctx.seed + 7919 * (k + 1), 3000, 40])
             oracle(ctx, obs2, spans, windows)
-            if any(v["found_input"] for v in ctx.violations):
+            if cc.unknown_failing_input(ctx):
                 break
     ctx.cov["rule"] = ("structured JSON configurations: 11 crystals x 5 types x 8 spellings x auto/explicit crystal angle x poling off/auto/explicit "
-                       "(+apodization kinds) x idler omitted/auto/explicit x internal/external angles x waist positions auto/explicit/omitted, "
-                       "wavelengths drawn inside the crystal's window; boundary/malformed classes: lambda_s <= lambda_p (=, 0.9x, random) in every "
-                       "combination, both/neither signal angle, auto angle + poling, angles in +-400 deg, all-zero angles, crystal angle 0 with "
-                       "1e-6..0.5 deg beams, explicit period > L, auto period in a 0.5-20 um crystal; plus a fixed corpus. distinct = distinct JSON text")
+                       "(+apodization kinds) x idler omitted/auto/explicit x internal/external angles x waist positions auto/explicit/omitted x "
+                       "counter_propagation true/false/omitted, wavelengths drawn inside the crystal's window; boundary/malformed classes: "
+                       "lambda_s <= lambda_p (=, 0.9x, random) in every combination, both/neither signal angle, auto angle + poling, angles in "
+                       "+-400 deg, all-zero angles, crystal angle 0 with 1e-6..0.5 deg beams, explicit period > L, auto period in a 0.5-20 um "
+                       "crystal, expression crystals (valid / unknown variable / unknown function); plus a fixed corpus; spectrum/rate/HOM calls "
+                       "on constructed setups with 3x3 and 5x5 grids, Simpson 6/10 and the default integrator. distinct = distinct JSON text")
     ctx.cov["clauses"] = {
         "both/neither signal angle is an error": "proved (all configs, all oracles) + validated on the stream",
         "auto crystal angle with poling is an error": "proved + validated",
-        "lambda_s <= lambda_p is an error": "REFUTED on the model (Findings/C17_F7.v) and on the code; proved for the class explicit angle/no poling/auto idler; full decision table proved",
+        "lambda_s <= lambda_p is an error": "proved for every configuration (C17_rule_signal_le_pump: the entry validation read off the source by the generator) + validated in every auto/explicit combination",
+        "an explicit poling period of 0 is an error": "proved (C17_rule_bad_period) + validated",
         "auto poling period that does not fit is an error": "proved (rule on the simplex result) + validated with the replayed search",
-        "never panics": "REFUTED (F7); proved for lambda_s > lambda_p under the contract that no simplex search fails; every panic site characterised",
-        "all derived values finite / period infinite only when poling off": "proved_partial (real-number definedness under oracle contracts) + validated",
-        "spectrum/rate/HOM calls finite": "validated_only (small in-window grids on constructed setups)"}
+        "never panics": "proved PER CONFIGURATION under searches_defined_at (the oracle calls this configuration makes are defined); for the composed "
+                        "model under three named definedness hypotheses (no total internal reflection when the crystal angle is automatic; every "
+                        "candidate of the angle / period search has a defined cost) which are FALSE on the known findings F7b, F7f, F7h: there the "
+                        "composed model panics like the implementation (C17_tir_panics_composed, Findings/C17_F7b_composed.v); the only panic "
+                        "site left in the model is the search's unwrap; panic sites scanned over the whole call graph; F7g (unevaluable crystal "
+                        "expression) is outside the model and found by the stream",
+        "all derived values finite / period infinite only when poling off": "proved_partial (per configuration: idler angle defined, index along z not 0, unpoled mismatch not exactly 0) + validated incl. the three refractive indices",
+        "spectrum/rate/HOM calls finite": "validated_only (in-window 3x3 / 5x5 grids, three integrators, on constructed setups; normalised spectrum included; known: F7d, F7e)"}
     return finish(ctx, assumptions=[
         "L4 structural model: numerical kernels (Snell maps, simplex searches, delta k, idler angle, waist position) are oracles; their "
         "answers are recorded from the implementation through the public API and the model's outcome/fields/trace are compared per input; "
         "COMPOSED (Model/Cfg_Composed.v): the oracle record instantiated over the reals with C03/C04's generated models (optimum idler, "
-        "auto period, auto angle, Nelder-Mead), contracts proved for that instance; what remains assumed: the Snell inverse (C13), binary64 vs "
-        "reals (a NaN cost makes argmin fail: F7b), the index function outside the built-in crystals' windows",
-        "panic sites: the generator checks the number of unwrap/expect/assert sites in the functions on the conversion path against the model's",
+        "auto period, auto angle, Nelder-Mead), each partial operation guarded by its definedness (asin argument in [-1, 1], sqrt argument "
+        "> 0, divisor <> 0); what remains assumed: the Snell inverse (C13), binary64 rounding inside the guards, the index function outside "
+        "the built-in crystals' windows, crystal expressions that evaluate (F7g)",
+        "panic sites: the generator scans every function reachable from try_as_spdc / try_as_optimum / from_json (name-based call graph) "
+        "for unwrap/expect/assert*/panic!/todo!/unimplemented!/unreachable!/indexing and refuses when the set differs from the modelled one; "
+        "integer overflow and slice bounds inside dependencies are not scanned",
         "binary64 overflow/underflow not modelled; finiteness clauses are validated on the stream"])
